@@ -331,11 +331,15 @@ where
     let shards = ctx.threads.max(1).min(opts.max_shards.max(1)) as u64;
     let shards = shards.min(cases.max(1));
     let abort = AtomicBool::new(false);
+    // lowest index among the shards that have failed so far: only its (fully shrunk) case is reported, so a shard
+    // with a higher index stops shrinking as soon as it knows
+    let lowest_failed = std::sync::atomic::AtomicU64::new(u64::MAX);
     let merged = Mutex::new(Merged::default());
     let failures: Mutex<Vec<(u64, C, String)>> = Mutex::new(Vec::new());
     std::thread::scope(|scope| {
         for shard in 0..shards {
             let abort = &abort;
+            let lowest_failed = &lowest_failed;
             let merged = &merged;
             let failures = &failures;
             scope.spawn(move || {
@@ -364,12 +368,16 @@ where
                     }
                     if rec.is_active() {
                         done.set(done.get() + 1);
+                    } else if lowest_failed.load(Ordering::Relaxed) < shard {
+                        // shrinking a failure that will not be the reported one: let the shrinker run out at once
+                        return Ok(());
                     }
                     match oracle(&case, &rec, ctx) {
                         Ok(()) => Ok(()),
                         Err(msg) => {
                             rec.freeze();
                             abort.store(true, Ordering::Relaxed);
+                            lowest_failed.fetch_min(shard, Ordering::Relaxed);
                             Err(TestCaseError::fail(msg))
                         }
                     }
